@@ -174,3 +174,13 @@ def user_module_named_like_a_pinned_local_of_generated_code(v):
     there. Known for the names pinned in known_findings.json only (specific inputs)."""
     f = v.get("facts", {})
     return f.get("scenario") == "module-name" and f.get("module_name") in _pinned_inputs("F51")
+
+
+@predicate
+def codecs_write_nested_instances_by_the_declared_class(v):
+    """F56: a codec calls the packer compiled for the DECLARED class of a nested dataclass member (kept in the codec's own
+    holder), the mixin methods call the instance's own to_dict: an instance of a subclass in a parent-typed member keeps its
+    own members through to_dict and loses them through every codec."""
+    f = v.get("facts", {})
+    return (f.get("scenario") == "subclass-instance-in-parent-typed-member" and f.get("members_are_mixin_classes") is True
+            and f.get("only_difference_is_subclass_members_dropped_by_codecs") is True)
